@@ -67,6 +67,18 @@ def run(ctx, R, tier):
             'rejected by a full track (SoundLimitReached), or dropped with its track/manager before stopping, leaves its thread '
             'polling forever and never releases the decoder',
             detail={'is_abandoned_in_run': end_c, 'drop_publishes_state': drop_ok}, where=runb.file)
+    # the thread may only go to sleep (Wait) or carry on (Continue) after it has established that the sound is neither
+    # stopped nor gone: otherwise a full ring keeps a discarded sound's thread polling forever
+    for kind in ('Wait', 'Continue'):
+        okk = True
+        for q in summ[kind]:
+            st = [bool_label(l) for _, d, l in q.decisions if 'Shared::state' in d and '::eq(' in d]
+            ab = [bool_label(l) for _, d, l in q.decisions if 'is_abandoned' in d]
+            if st != [False] or ab != [False]:
+                okk = False
+        R.check(okk and bool(summ[kind]), 'B.C10.exit', 'alive-before-' + kind.lower(),
+                'run() can return %s without having checked that the sound is still alive (not Stopped, consumer not dropped): a discarded '
+                'sound whose ring is full is never noticed' % kind, detail='%s only after state != Stopped and !is_abandoned()' % kind, where=runb.file)
     # exit edge of the thread loop is taken on End
     exits = [(x, s) for x in L['blocks'] for s in c.succ(x) if s not in L['blocks']]
     R.check(bool(exits), 'B.C10.exit', 'loop-exit', 'the decoder loop has no exit edge', detail={'exits': len(exits)})
